@@ -215,7 +215,7 @@ func daysOfMonth(year, month int) int {
 }
 
 func (t *DateTime) AddDateSpan(val DateSpan) *DateTime {
-	result := t.AddTimeSpan(TimeSpan(val.Days()) * Day)
+	result := ToElkDateTime(t.native.AddDate(0, 0, val.Days()))
 	oldDay := result.Day()
 
 	month := result.Month() + int(val.months)
